@@ -262,6 +262,25 @@ PROPS["C12"] = {
     },
 }
 
+PROPS["C13"] = {
+    "level": "exploration",
+    "rule": ("each run has one real DNS-tunnel server and 2-4 client sessions (distinct source addresses, sometimes a new address on reopen) and draws a history of 3-12 operations from {open / "
+             "reopen (real handshake), close, go silent (all its datagrams dropped), clock runs 1 / 6 / 31 / 40 simulated minutes while live sessions keep polling (the 1-minute prune task, the "
+             "5-minute stale timeout and the 30-minute old-session timeout all fire), spoofed request {packet with data and plausible or arbitrary sequence numbers, poll with ack, close, fragment "
+             "probe, set fragment size} carrying a live or closed session's identifier from a foreign address or (for closed sessions) the old address}; after every operation all sessions that "
+             "have been exchanging data continuously move fresh data both ways; non-trivial = the whole history was judged; distinct = histories"),
+    "probes": ["sessions_opened", "sessions_closed", "sessions_silenced", "fault_clock_jump", "spoofed_messages", "spoofs_rejected", "history_ops"],
+    "technique": "deterministic simulation: histories of k sessions x clock jumps x spoofed messages against the real DNS server, session-table model (distinct ids, per-session PRF streams, spoof rejection, survival across expiry and slot reuse)",
+    "level_text": ("Seeded exploration of session histories under a simulated clock. Oracles: live sessions hold pairwise distinct identifiers; every session's streams carry only its own peer's PRF "
+                   "data; a spoofed message from a foreign address is answered with an error, never with session data, and the victim's following transfer completes unaltered; a session that "
+                   "exchanges data continuously is never terminated by another session's close or expiry, including after its identifier slot was reused."),
+    "level_note": "The spoofer is given the victim's negotiated codec parameters (worst case). Sessions sharing one source address are not modelled (a UDP socket pair identifies a session).",
+    "tiers": {
+        "quick": {"runs": 240, "chunk": 20, "shrink_s": 60, "stall_s": 400},
+        "thorough": {"runs": 6000, "chunk": 50, "shrink_s": 180, "stall_s": 400},
+    },
+}
+
 PENDING = "check under construction in this round; see DESIGN.md section 5 for the planned simulation"
 NOT_APPLICABLE = [
     {"property_id": "C08", "reason": "pure function of one byte string (codec Encode/Decode): no schedule, clock, fault or second party for a simulator to control; see DESIGN.md section 6"},
